@@ -29,6 +29,31 @@ def eval_facets(args):
     return dict(kind=kind, base=bf, derived=df, version=ver, bad=bad) if bad else False
 
 
+def eval_local_types(args):
+    """the base declaration and its redeclaration in a restriction both carry a LOCAL (anonymous) simple type, each a restriction of xs:integer with its own facets - two unrelated
+    definitions: if the builder accepts the restriction, every value valid for the restricted type is valid for the base type"""
+    where, bf, df, ver = args
+    import xmlschema
+    st = lambda fs: f'<xs:simpleType><xs:restriction base="xs:integer">{facet_xml(fs)}</xs:restriction></xs:simpleType>'
+    if where == 'attribute':
+        body = lambda fs: f'<xs:attribute name="a">{st(fs)}</xs:attribute>'
+        inst = lambda tag, v: f'<{tag} a="{v}"/>'
+        text = f'<xs:complexType name="B">{body(bf)}</xs:complexType><xs:complexType name="D"><xs:complexContent><xs:restriction base="B">{body(df)}</xs:restriction></xs:complexContent></xs:complexType>'
+    elif where == 'child':
+        body = lambda fs: f'<xs:sequence><xs:element name="c">{st(fs)}</xs:element></xs:sequence>'
+        inst = lambda tag, v: f'<{tag}><c>{v}</c></{tag}>'
+        text = f'<xs:complexType name="B">{body(bf)}</xs:complexType><xs:complexType name="D"><xs:complexContent><xs:restriction base="B">{body(df)}</xs:restriction></xs:complexContent></xs:complexType>'
+    else:
+        inst = lambda tag, v: f'<{tag}>{v}</{tag}>'
+        text = (f'<xs:complexType name="B0"><xs:simpleContent><xs:extension base="xs:integer"><xs:attribute name="x"/></xs:extension></xs:simpleContent></xs:complexType>'
+                f'<xs:complexType name="B"><xs:simpleContent><xs:restriction base="B0">{st(bf)}</xs:restriction></xs:simpleContent></xs:complexType>'
+                f'<xs:complexType name="D"><xs:simpleContent><xs:restriction base="B">{st(df)}</xs:restriction></xs:simpleContent></xs:complexType>')
+    try: s = _cls(ver)(f'<xs:schema {XS}>{text}<xs:element name="b" type="B"/><xs:element name="d" type="D"/></xs:schema>')
+    except xmlschema.XMLSchemaException: return None
+    bad = [v for v in INT_VALUES if s.is_valid(inst('d', v)) and not s.is_valid(inst('b', v))]
+    return dict(where=where, base=bf, derived=df, version=ver, bad=bad) if bad else False
+
+
 def eval_attrs(args):
     buse, duse, bfix, dfix, ver = args
     import xmlschema
@@ -163,6 +188,11 @@ def run(tier, seed, open_findings):
     accepted = sum(1 for r in res if r is not None)
     out = [result('C14.facet_pairs', f'{len(jobs)} (base facets, derived facets, class) triples over integer and string boundary values', len(jobs), failures, exhaustive=True, distinct=accepted,
                   samples=[dict(base=jobs[5][1], derived=jobs[5][2])])]
+    ljobs = [(w, [bf_], [df_], ver) for w in ('attribute', 'child', 'simple-content') for bf_ in INT_FACETS for df_ in INT_FACETS for ver in ('1.0', '1.1')]
+    lres = pmap(eval_local_types, ljobs)
+    out.append(result('C14.local_simple_types', f'{len(ljobs)} (attribute / child element / simple content, facet of the base local type, facet of the redeclared local type, class): two unrelated local simple types over xs:integer',
+                      len(ljobs), [dict(case=dict(local_types=True, where=r['where'], base=r['base'], derived=r['derived'], version=r['version']), observed=f"the restriction accepts {r['bad']} that the base rejects",
+                                        required='values(derived) subset of values(base)') for r in lres if r], exhaustive=True, distinct=sum(1 for r in lres if r is not None)))
     uses = (None, 'optional', 'required', 'prohibited'); fixes = (None, '1', '2')
     # use=prohibited together with fixed is outside the scope: XSD 1.0 leaves its meaning open, xmlschema accepts the attribute then (reported corner)
     ajobs = [(bu, du, bf, df, ver) for bu in uses for du in uses for bf in fixes for df in fixes for ver in ('1.0', '1.1')
@@ -206,6 +236,8 @@ def run(tier, seed, open_findings):
 
 
 def replay(check_name, case):
+    if case.get('local_types'):
+        r = eval_local_types((case['where'], [tuple(x) for x in case['base']], [tuple(x) for x in case['derived']], case['version'])); return dict(ok=not r, observed=r, required='derived admits a subset')
     if case.get('child_types'):
         r = eval_child_types((case['base'], case['derived'], case['version'])); return dict(ok=not r, observed=r, required='derived admits a subset')
     if case.get('open'):
